@@ -593,3 +593,91 @@ def c04_site(mb, run, result):
             elif c['cl'] == holder:
                 holder = None
     return 'release-by-non-holder' if rogue else 'no-rogue-release'
+
+
+# ------------------------------------------------------------------------------------------------ C11 (shell world)
+def c11_windows(h: History):
+    """[(client, open seq, close seq)] - a window opens when the granting reply has been RETURNED to the client's
+    thread and closes when that client INVOKES release."""
+    wins = []
+    open_ = {}
+    for r in h.result.records:
+        if r['kind'] == 'window_open':
+            open_[int(r['cl'])] = r['seq']
+        elif r['kind'] == 'window_close':
+            cl = int(r['cl'])
+            if cl in open_:
+                wins.append((cl, open_.pop(cl), r['seq']))
+    for cl, s in open_.items():
+        wins.append((cl, s, 10 ** 12))
+    return wins
+
+
+def judge_c11(mb, run, result):
+    v = basic(result)
+    if v:
+        return v
+    h = History(mb, run, result)
+    ctor, fc = h.first('shell_ctor'), h.first('fc')
+    if ctor is None or ctor['result'] != 'ok' or fc is None or fc['result'] != 'ok':
+        return [Violation('construction:valid-world-rejected', f'{ctor} {fc}')]
+    mc = mb.mc
+    out = []
+    calls = sorted(h.calls.values(), key=lambda c: c['seq'])
+    vs, match_c = routing(h, lambda c: c['side'] == 'i' and c['ev'] in mc['out_events'])
+    out += [x for x in vs if not x.cls.startswith('routing:phantom')]
+    sp = h.shell_pump()
+    for i, c in enumerate(calls):
+        if c['side'] == 'o' and match_c[i] >= 0 and h.handlers[match_c[i]]['disp'] != sp:
+            out.append(Violation('concurrency:event-handled-outside-dispatcher', mb.events[c['ev']]['name'], c['seq']))
+    # component-side truth: who has been granted and has not been released yet, in dispatcher order
+    timeline = []
+    for i, c in enumerate(calls):
+        if c['side'] == 'o' and match_c[i] >= 0:
+            hd = h.handlers[match_c[i]]
+            if c['ev'] == mc['claim'] and hd['reply'] == mc['grant']:
+                timeline.append((hd['seq'], 'grant', c['cl']))
+            elif c['ev'] == mc['release']:
+                timeline.append((hd['seq'], 'release', c['cl']))
+    timeline.sort()
+    judged = []   # (client, window open, window close, taint seq)
+    for cl, s, e_ in c11_windows(h):
+        g0 = max([t for t, k, x in timeline if k == 'grant' and x == cl and t < s], default=None)
+        if g0 is None:
+            continue
+        outstanding = set()
+        taint = 10 ** 12
+        for t, k, x in timeline:
+            if k == 'grant':
+                outstanding.add(x)
+            else:
+                outstanding.discard(x)
+            # A window is judged only while exactly its owner has been granted and not released.  After a release
+            # by a non-holder made the arbiter forget the holder, a second client can be granted without a release
+            # in between; the statement does not single out one of them.
+            if t >= g0 and outstanding != {cl}:
+                taint = t
+                break
+        judged.append((cl, s, e_, taint))
+    for c in calls:
+        if not (c['side'] == 'i' and c['ev'] in mc['out_events']):
+            continue
+        e = mb.events[c['ev']]
+        name = f"{mb.ports[e['port']]['name']}.{e['name']}"
+        dels = mc_deliveries(h, c)
+        recipients = [d['cl'] for d in dels]
+        if len(recipients) > 1:
+            out.append(Violation('concurrency:out-event-delivered-more-than-once', f'{name} -> clients {recipients}', c['seq']))
+            continue
+        end = c['ret']['seq'] if c['ret'] else 10 ** 12
+        holders = [cl for cl, s, e_, taint in judged if s < c['seq'] < e_ and end < taint]
+        if len(holders) != 1:
+            continue   # claim or release in flight, nobody holds, or double grant: the statement is silent
+        got = recipients[0] if recipients else None
+        if got in holders:
+            continue
+        if got is None:
+            out.append(Violation('concurrency:holder-lost-out-event', f'{name}: client {holders[0]} holds the claim, nobody received it', c['seq']))
+        else:
+            out.append(Violation('concurrency:out-event-to-non-holder', f'{name} -> client {got}, holder {holders[0]}', c['seq']))
+    return _dedup(out)
